@@ -1197,8 +1197,10 @@ class FortranBackend(BaseBackend):
             code_tmp = code[start:stop]
             ops = ["+", "-", "*", "/", "**", "^", "%", "<", ">", "==", "!=", "<=", ">="]
             def _first(op):
-                # first occurrence of `op` that is not the sign of a literal's exponent (7.6d-6, 1.0e+22)
-                i = code_tmp.find(op)
+                # first occurrence of `op` that is not the sign of a literal's exponent (7.6d-6, 1.0e+22) and not the very
+                # first character (a continuation line that starts with its operator, `& *zbig0_v1*sin(...)`, must be broken
+                # at a LATER operator - otherwise the fallback below cuts through an identifier)
+                i = code_tmp.find(op, 1)
                 while i > 1 and op in ('+', '-') and code_tmp[i - 1] in 'dDeE' and (code_tmp[i - 2].isdigit() or
                                                                                    code_tmp[i - 2] == '.'):
                     i = code_tmp.find(op, i + 1)
